@@ -647,6 +647,30 @@ class C06Hold(Base):
                            f'(hold set {sorted(self.H)[:5]}, hold point '
                            f'{self.hp})', t)
 
+    def after_iter(self, drv, pool_snap):
+        # a pooled task that the model says is held carries the held flag,
+        # whatever its status (hold applies to active tasks too: it stops
+        # their retries)
+        for t in pool_snap:
+            tid = t['id']
+            if t['name'] not in self.gt['tasks'] or t['manual'] or \
+                    tid in self.released_manual or \
+                    tid in drv.ledger.manual:
+                continue
+            want = tid in self.H or (self.hp is not None
+                                     and int(t['point']) > self.hp)
+            if not want:
+                continue
+            self.n['pooled_held_checks'] += 1
+            if t['status'] in ACTIVE:
+                self.n['pooled_held_checks_active'] += 1
+            if not t['held'] and t['status'] not in FINAL:
+                self.v('held-flag-missing-in-pool:' + (
+                    'active' if t['status'] in ACTIVE else t['status']),
+                    f'{tid} ({t["status"]}) is in the pool without the held '
+                    f'flag although held by command or beyond hold point '
+                    f'{self.hp} (hold set {sorted(self.H)[:5]})', t)
+
     def summary(self, drv):
         d = dict(self.n)
         d['_state'] = {'H': sorted(self.H), 'hp': self.hp,
